@@ -221,11 +221,6 @@ class PWLCalibration(keras.layers.Layer):
                        "together with 'is_cyclic'.")
     if monotonicity is None:
       raise ValueError("'monotonicity' can't be None. Did you mean '0'?")
-    if (((clamp_min and output_min is not None) or
-         (clamp_max and output_max is not None)) and
-        not utils.canonicalize_monotonicity(monotonicity)):
-      raise ValueError("'clamp_min'/'clamp_max' require a monotonic calibrator: "
-                       "clamping is not implemented for non monotonic functions.")
     if convexity not in ("none",
                          0) and input_keypoints_type == "learned_interior":
       raise ValueError("Cannot set input_keypoints_type to 'learned_interior'"
